@@ -188,7 +188,7 @@ func runC10(p *C10Plan) (*stats.Case, error) {
 			}
 			// a user token must not be able to revoke
 			if len(issued) > 0 && live[issued[0]] && tok != issued[0] {
-				if r2, _ := s.Do("DELETE", "/api/v1/access/"+tok, auth(issued[0]), nil); r2.Code != 401 {
+				if r2, _ := s.Do("DELETE", "/api/v1/access/"+url.PathEscape(tok), auth(issued[0]), nil); r2.Code != 401 {
 					return nil, fmt.Errorf("%s: non-admin token revoked a token (%d)", where, r2.Code)
 				}
 			}
